@@ -98,7 +98,9 @@ def run(ctx):
         if any(o == "-" for o, _ in steps):
             ctx.count("diff engine did not return the forced alignment (engine assumption; skipped)")
             continue
-        annots = [((s, e), "<a>", "</a>") for s, e in spans]
+        # the shape eyecite's documentation annotates with: attributes with blanks, dots, hashes, dashes
+        open_a = "<a>" if rng.random() < 0.5 else '<a href="#c-1.x" class="c d">'
+        annots = [((s, e), open_a, "</a>") for s, e in spans]
         out, table = AC.run_annotate(plain, annots, src, mode, dmp)
         nt = any(v is False for v in table.values())
         ctx.case("annotate-tags", (src, tuple(spans), mode, dmp), nt, dict(source=src, spans=spans, mode=mode, out=out) if nt and len(ctx.samples) < 8 else None)
